@@ -1255,6 +1255,16 @@ func (w *Worker) visit(fr *frame, in ssa.Instruction) cont {
 		w.setv(fr, x, ChanV{o})
 	case *ssa.Alloc:
 		et := x.Type().(*types.Pointer).Elem()
+		// make([]byte, <constant>) is lowered by go/ssa to new([N]byte)[:]; a huge
+		// byte array is held as a zero-initialised SMT buffer like makeSliceOf does.
+		if at, ok := under(et).(*types.Array); ok && at.Len() > int64(w.prog.maxAlloc) {
+			if eb, ok := under(at.Elem()).(*types.Basic); ok && eb.Kind() == types.Uint8 {
+				buf := &SMTBuf{A: laOf(w.ctx.ConstArr(64, w.ctx.BVConst(0, 8))), N: w.k64(int(at.Len()))}
+				o := w.newObj(buf, et, "alloc-smt")
+				w.setv(fr, x, PtrV{Obj: o})
+				break
+			}
+		}
 		o := w.newObj(w.zero(et), et, x.Comment)
 		w.setv(fr, x, PtrV{Obj: o})
 	case *ssa.MakeSlice:
